@@ -339,6 +339,7 @@ func checkC01(c *Ctx) {
 		return
 	}
 	c01ListFields(c)
+	c01ElementTypes(c)
 	c01Dirs(c)
 	c.Set("rule", "case = one gofmt-canonical file through one entry point (bytes compared), or one declaration snippet whose fragment list and attachments are validated by TLC against Link.tla; non-trivial = the input contains comments; distinct by path+entry / snippet text")
 }
@@ -690,7 +691,7 @@ func c01ListFields(c *Ctx) {
 	var jobs []job
 	for mi, m := range minis {
 		for li := range listsOf(m) {
-			for v := 0; v < 4; v++ {
+			for v := 0; v < 7; v++ {
 				jobs = append(jobs, job{mi, li, v})
 			}
 		}
@@ -710,6 +711,21 @@ func c01ListFields(c *Ctx) {
 			d := lv.Index(k).Interface().(dst.Node).Decorations()
 			d.Before, d.After = dst.NewLine, dst.NewLine
 			switch j.variant {
+			case 4: // asymmetric: a break in front of the first element only
+				d.Before, d.After = dst.None, dst.None
+				if k == 0 {
+					d.Before = dst.NewLine
+				}
+			case 5: // asymmetric: a break in front of every second element, none behind any
+				d.Before, d.After = dst.None, dst.None
+				if k%2 == 1 {
+					d.Before = dst.NewLine
+				}
+			case 6: // asymmetric: a break behind every second element only
+				d.Before, d.After = dst.None, dst.None
+				if k%2 == 0 && k+1 < lv.Len() {
+					d.After = dst.NewLine
+				}
 			case 1:
 				d.End.Append(fmt.Sprintf("// t%d", k))
 			case 2:
@@ -765,4 +781,85 @@ func unindentClosingComments(b []byte) string {
 		}
 	}
 	return strings.Join(lines, "\n")
+}
+
+// c01ElementTypes: one exemplar of every expression node type of the template (types included: they
+// are expressions to the parser) as a direct element of a call's argument list, with line breaks on
+// one side only; canonical prints must round-trip. The decorator copies Before / After per node type.
+func c01ElementTypes(c *Ctx) {
+	src, err := templateSrc()
+	if err != nil {
+		c.Infra(err.Error())
+		return
+	}
+	full, err := decorator.Parse(src)
+	if err != nil {
+		c.Infra(err.Error())
+		return
+	}
+	var ps []nodePos
+	exprPositions(full, &ps, map[dst.Node]bool{})
+	exemplar := map[string]dst.Expr{}
+	var names []string
+	for _, p := range ps {
+		e := p.get().Interface().(dst.Expr)
+		t := fmt.Sprintf("%T", e)
+		if _, ok := exemplar[t]; !ok {
+			exemplar[t] = e
+			names = append(names, t)
+		}
+	}
+	sort.Strings(names)
+	tested, skipped := 0, 0
+	for _, t := range names {
+		for pattern := 0; pattern < 4; pattern++ {
+			e := dst.Clone(exemplar[t]).(dst.Expr)
+			stripDecsNode(e)
+			x, y := dst.NewIdent("x"), dst.NewIdent("y")
+			args := []dst.Expr{e, x, y}
+			if pattern >= 2 {
+				args = []dst.Expr{x, e, y}
+			}
+			switch pattern {
+			case 0, 2:
+				e.Decorations().Before = dst.NewLine
+			case 1, 3:
+				e.Decorations().After = dst.NewLine
+			}
+			f := &dst.File{Name: dst.NewIdent("p"), Decls: []dst.Decl{&dst.GenDecl{Tok: token.VAR, Specs: []dst.Spec{&dst.ValueSpec{
+				Names: []*dst.Ident{dst.NewIdent("_")}, Values: []dst.Expr{&dst.CallExpr{Fun: dst.NewIdent("g"), Args: args}}}}}}}
+			text, msg := printFile(f)
+			if msg != "" || !isCanonical([]byte(text)) {
+				skipped++
+				continue
+			}
+			key := fmt.Sprintf("element-type|%s|pattern-%d", t, pattern)
+			c.Eval(key, true)
+			tested++
+			for _, er := range entryPoints("x.go", []byte(text), false) {
+				if er.Err != "" {
+					c.Fail(Finding{Sig: "roundtrip-fails", Input: key, What: er.Entry + ": " + er.Err + "\n" + text, Replay: obj{"kind": "c01snip", "src": text}})
+				} else if !bytes.Equal(er.Out, []byte(text)) {
+					c.Fail(Finding{Sig: "roundtrip-bytes-differ", Input: key, What: er.Entry + ": " + diffAt([]byte(text), er.Out) + "\n" + text, Replay: obj{"kind": "c01snip", "src": text}})
+				}
+			}
+		}
+	}
+	c.Set("element_type_layouts_round_tripped", tested)
+	c.Set("element_type_layouts_not_canonical", skipped)
+	c.Set("element_types", len(names))
+}
+
+// stripDecsNode removes spacing and decorations below n.
+func stripDecsNode(n dst.Node) {
+	dst.Inspect(n, func(m dst.Node) bool {
+		if m == nil {
+			return false
+		}
+		d := m.Decorations()
+		d.Before, d.After = dst.None, dst.None
+		d.Start.Clear()
+		d.End.Clear()
+		return true
+	})
 }
